@@ -203,10 +203,21 @@ def run(ctx) -> None:
     conds = [n for n in walk_no_nested(sm.node) if isinstance(n, ast.If)]
     ctx.require(len(conds) == 1, "_potential_ensemble_shape_and_metadata: expected one condition")
     cond = conds[0]
-    okc = norm_text(cond.test).replace(" ", "") in ("len(potential.exit_planes)>1", "potential.num_exit_planes>1")
+    from ..model import ordered_compare
+
+    COUNTS = ("len(potential.exit_planes)", "potential.num_exit_planes")
+
+    def _is_one(e):
+        return isinstance(e, ast.Constant) and e.value == 1 and not isinstance(e.value, bool)
+
+    oc = ordered_compare(cond.test)  # `1 < count` in either orientation
+    okc = oc is not None and oc[1] and _is_one(oc[0]) and norm_text(oc[2]).replace(" ", "") in COUNTS
     vconds = [n for n in walk_no_nested(vf.node) if isinstance(n, ast.If) and "exit_planes" in norm_text(n.test)]
-    okv = bool(vconds) and norm_text(vconds[0].test).replace(" ", "") in ("len(potential.exit_planes)==1",
-                                                                          "potential.num_exit_planes==1")
+    okv = False
+    if vconds and isinstance(vconds[0].test, ast.Compare) and len(vconds[0].test.ops) == 1 and isinstance(
+            vconds[0].test.ops[0], ast.Eq):  # `count == 1` in either orientation
+        a_, b_ = vconds[0].test.left, vconds[0].test.comparators[0]
+        okv = any(_is_one(x) and norm_text(y).replace(" ", "") in COUNTS for x, y in ((a_, b_), (b_, a_)))
     ctx.check(okc and okv, "R-INDEXORDER", f"{sm.qualname}:conditions", sm.loc(cond),
               "exit-plane axis allocated iff exit-plane index is kept (len(exit_planes) > 1 vs == 1)",
               f"axis allocated under `{norm_text(cond.test)}` but index dropped under "
